@@ -264,6 +264,8 @@ def main(path):
             def probe(self, *pa, **pk):
                 b2 = dict(bindings)
                 b2['op'] = pa[0] if pa else None
+                for kw_name, kw_val in pk.items():
+                    b2['call_' + kw_name] = kw_val
                 verdict['value'] = bool(call_clause(find_clause(meta['clause']), b2))
                 raise StopReplay()
             setattr(owner, name, probe)
@@ -331,6 +333,10 @@ def main(path):
                     out['detail'] += f' at line {tb[-1].lineno} of {tb[-1].name}'
         else:
             out['detail'] = f'obligation kind {kind} is not replayable'
+    if out.get('confirmed') is False and model.get('abstract_callees'):
+        out['confirmed'] = None
+        out['detail'] += ' -- the counter-model chooses values for abstract callees (' + ', '.join(model['abstract_callees']) + \
+                         ') that the real callees do not take on this input: no failing input found natively'
     print(json.dumps(out))
 
 
